@@ -136,22 +136,37 @@ def _check(prod, outputs, consumed):
     return True
 
 
-def e_edges(nfiles: int, haslib: bool, nextra: int, cextra: int, nout: int, hasalias: bool) -> bool:
+def e_edges(nfiles: int, haslib: bool, nextra: int, cextra: int, nout: int, hasalias: bool,
+            hasinc: bool, haspre: bool, hasver: bool) -> bool:
     """a script made of object files, a static library, an executable, a multi-output build_step,
     a copy and an alias, with a symbolic shape: every output has exactly one producing rule in both
     backends and every step depends on everything it consumes
     pre: 1 <= nfiles <= 2 and 0 <= nextra <= 2 and 0 <= cextra <= 1 and 1 <= nout <= 2
     pre: nfiles == param('NFILES', 1) and haslib == bool(param('HASLIB', 0))
+    pre: hasinc == bool(param('HX', 0) & 1) and haspre == bool(param('HX', 0) & 2) and hasver == bool(param('HX', 0) & 4)
     post: _
     """
     build, ctx = infra._context()
     hdrs = [ctx['header_file']('h%d.h' % i) for i in range(2)]
     lib = ctx['static_library']('util', files=['u.c']) if haslib else None
     srcs = ['a.c', 'b.c'][:nfiles]
-    objs = ctx['object_files'](srcs, extra_deps=hdrs[:cextra])
+    ckw = {}
+    if hasinc:
+        # a header *file* passed through includes= is a dependency of the compile step
+        ckw['includes'] = [ctx['header_file']('inc/cfg.h')]
+    objs = ctx['object_files'](srcs, extra_deps=hdrs[:cextra], **ckw)
     kw = {}
+    libs = []
     if lib is not None:
-        kw['libs'] = [lib]
+        libs.append(lib)
+    if haspre:
+        # a library that already exists in the source tree (no producing step)
+        libs.append(ctx['static_library']('pre/libpre.a'))
+    if libs:
+        kw['libs'] = libs
+    ver = None
+    if hasver:
+        ver = ctx['shared_library']('ver', files=['v.c'], version='1.2.3', soversion='1')
     exe = ctx['executable']('prog', files=objs, extra_deps=hdrs[:nextra], **kw)
     gen_out = ['g1.txt', 'g2.txt'][:nout]
     gsrc = ctx['generic_file']('in.txt')
@@ -164,15 +179,27 @@ def e_edges(nfiles: int, haslib: bool, nextra: int, cextra: int, nout: int, hasa
     for prod in (_make_graph(mk), _ninja_graph(nf)):
         for i, s in enumerate(srcs):
             o = s[:-2] + '.o'
-            ok = ok and _check(prod, [o], ['src:' + s] + ['src:h%d.h' % k for k in range(cextra)])
+            ok = ok and _check(prod, [o], ['src:' + s] + ['src:h%d.h' % k for k in range(cextra)] +
+                               (['src:inc/cfg.h'] if hasinc else []))
         consumed = [s[:-2] + '.o' for s in srcs] + ['src:h%d.h' % k for k in range(nextra)]
         if haslib:
             consumed.append('libutil.a')
             ok = ok and _check(prod, ['libutil.a'], ['libutil.int/u.o']) and \
                 _check(prod, ['libutil.int/u.o'], ['src:u.c'])
+        if haspre:
+            consumed.append('src:pre/libpre.a')
         ok = ok and _check(prod, ['prog'], consumed)
         ok = ok and _check(prod, gen_out, ['src:in.txt'] + ['src:h%d.h' % k for k in range(nextra)])
         ok = ok and _check(prod, ['data.txt'], ['src:data.txt'])
         if hasalias:
             ok = ok and _check(prod, ['everything'], ['prog', 'data.txt'])
+    # the default target: every linked output in its *public* form (the unversioned name of a
+    # versioned shared library), nothing else
+    mk2 = Makefile('build.bfg')
+    bdefault.make_all_rule(build, mk2, ENV)
+    nf2 = NinjaFile('build.bfg')
+    bdefault.ninja_all_rule(build, nf2, ENV)
+    want_all = ['prog'] + (['libutil.a'] if haslib else []) + (['libver.so'] if hasver else [])
+    ok = ok and sorted(_sfx(d) for d in mk2._rules[-1].deps) == sorted(want_all)
+    ok = ok and sorted(_sfx(d) for d in nf2._builds[-1].inputs) == sorted(want_all)
     return R(ok)
